@@ -82,6 +82,10 @@ def cases(rng, tier):
         out.append({'kind': kind, 'L': L, 'seed': rng.getrandbits(30), 'dtype': rng.choice(['real', 'real', 'complex']),
                     'struct': rng.choice(['dense', 'dense', 'sparse', 'symmetric', 'padded', 'integer', 'single']),
                     'utype': rng.choice(['rotation', 'phase', 'generic', 'swap'])})
+        # magnitude regimes (powers of two: exact): all coefficients tiny / large, or the interaction far below the kinetic part
+        u = rng.random()
+        if u < 0.22:
+            out[-1]['mag'] = rng.choice([['all', -40], ['all', -30], ['all', -27], ['all', 24], ['v', -30], ['v', -34], ['t', -30]])
     # long lattices with genuinely complex 2x2 unitaries in every run: the blocks of the gauge matrices that are only
     # populated for pairs in the right half of a lattice with L >= 7 are complex-conjugated entries
     for L, ut, dt in {'quick': ((7, 'generic', 'complex'), (7, 'phase', 'real')), 'thorough': ((7, 'generic', 'complex'), (7, 'phase', 'real'), (8, 'generic', 'real'), (8, 'phase', 'complex')), 'search': ((7, 'generic', 'complex'),)}[tier]:
@@ -94,7 +98,20 @@ def cases(rng, tier):
     return out
 
 
-def coefficients(case):
+def coefficients(case, mag=True):
+    t, v = _coefficients(case)
+    if mag and case.get('mag'):
+        t, v = apply_mag(case, t, v)
+    return t, v
+
+
+def apply_mag(case, t, v):
+    who, k = case['mag']
+    f = 2.0 ** k
+    return (t * f if who in ('all', 't') else t), (v * f if who in ('all', 'v') else v)
+
+
+def _coefficients(case):
     rs = np.random.default_rng(case['seed'])
     L = case['L']
     cplx = case['dtype'] == 'complex'
@@ -145,10 +162,12 @@ def unitary(case):
 def exact_coefficients(case):
     """the case's coefficient tensors rounded to multiples of 1/8 (structure kept: zeros stay zero, symmetries survive the
     entrywise odd rounding, except that t_00 := 1 if t rounds to zero); all float arithmetic of the constructors on them is exact"""
-    t, v = coefficients(case)
+    t, v = coefficients(case, mag=False)
     t, v = MC.dyadic(t), MC.dyadic(v)
     if not np.any(t):
         t[0, 0] = 1.0      # rounding must not produce the zero operator (all chain coefficients zero: from_opchains raises)
+    if case.get('mag'):
+        t, v = apply_mag(case, t, v)
     return t, v
 
 
@@ -187,7 +206,7 @@ def impl(case):
             res['exact'] = exact_runs(case)
             f = ptn.molecular_hamiltonian_mpo if case['kind'] == 'mol' else ptn.spin_molecular_hamiltonian_mpo
             ref = HR.molecular(t, v) if case['kind'] == 'mol' else HR.spin_molecular(t, v)
-            scale = 1.0 + float(np.linalg.norm(ref))
+            scale = float(np.linalg.norm(ref)) or 1.0
             Hopt = f(t, v, optimize=True)
             Mo = G.mpo_dense(Hopt.A)
             res['err_opt'] = float(np.linalg.norm(Mo - ref)) / scale
@@ -202,7 +221,7 @@ def impl(case):
                 res['paths_sparse'] = float(abs(Hex.as_matrix(sparse_format=True) - Hopt.as_matrix(sparse_format=True)).max()) / scale
                 res['sparsity_exp'] = G.mpo_sparsity_ok(Hex)
                 res['dims_exp'] = [int(x) for x in Hex.bond_dims]
-            hermitian_in = bool(np.allclose(t, t.conj().T) and np.allclose(v, v.conj().transpose(2, 3, 0, 1)))
+            hermitian_in = bool(np.array_equal(t, t.conj().T) and np.array_equal(v, v.conj().transpose(2, 3, 0, 1)))   # exact: magnitudes vary
             res['herm'] = float(np.linalg.norm(Mo - Mo.conj().T)) / scale if hermitian_in else None
             return res
         # gauge transformation of the explicit spinless construction (convention of the documented usage: the tensors
@@ -222,7 +241,7 @@ def impl(case):
             tensors[i] = np.einsum(v_l, (2, 4), H2.A[i], (0, 1, 4, 3), (0, 1, 2, 3))
             tensors[i + 1] = np.einsum(v_r, (3, 4), H2.A[i + 1], (0, 1, 2, 4), (0, 1, 2, 3))
             M = G.mpo_dense(tensors)
-            worst = max(worst, float(np.linalg.norm(M - ref)) / (1.0 + float(np.linalg.norm(ref))))
+            worst = max(worst, float(np.linalg.norm(M - ref)) / (float(np.linalg.norm(ref)) or 1.0))
         res = {'gauge': worst}
         if L <= GAUGE_EXACT_LMAX:
             try:
